@@ -451,4 +451,156 @@ Section RoundTrip.
         by (rewrite !app_length, hashes_length, tabs_length; cbn; lia).
       now rewrite skipn_app_exact.
   Qed.
+
+  (* ================= single line with hashes (WithOptionalHashes) ================= *)
+
+  Lemma plain_valid : forall qc nh rest s, plain qc nh rest s -> valid_utf8 s.
+  Proof. induction 1; constructor; assumption. Qed.
+
+  Lemma plain_no_crnl : forall qc nh rest s, plain qc nh rest s ->
+    Forall (fun x => x <> ch_nl /\ x <> ch_cr) s.
+  Proof.
+    induction 1 as [|r tl Hsc H0 Hnl Hcr _ _ IH]; [constructor|].
+    apply Forall_app. split; [|exact IH].
+    destruct (N.ltb_spec r 0x80) as [Hlt|Hge].
+    - rewrite encode_ascii by assumption. constructor; [split; assumption|constructor].
+    - destruct (encode_high r Hge) as [Hall _]. eapply Forall_impl; [|exact Hall].
+      cbn. unfold ch_nl, ch_cr. lia.
+  Qed.
+
+  (* the text starts with two quote characters that are not followed by a hash *)
+  Definition lead2 (q : N) (s : str) : bool :=
+    match s with
+    | a :: b :: r => (a =? q) && (b =? q) && match r with c :: _ => negb (c =? ch_hash) | [] => true end
+    | _ => false
+    end.
+
+  Lemma look3_lead2 : forall q hc s, q <> ch_hash -> hc <> 0%nat ->
+    look3 q (s ++ q :: hashes hc) = lead2 q s.
+  Proof.
+    intros q hc s Hq Hhc. destruct hc as [|hc]; [contradiction|].
+    change (hashes (S hc)) with (ch_hash :: hashes hc).
+    destruct s as [|a [|b [|c r]]]; cbn [app look3 lead2].
+    - rewrite N.eqb_refl. destruct (N.eqb_spec ch_hash q); [congruence|]. destruct (hashes hc); reflexivity.
+    - rewrite !N.eqb_refl. cbn [negb]. now rewrite andb_false_r.
+    - destruct (N.eqb_spec q ch_hash); [contradiction|]. cbn [negb]. now rewrite andb_true_r.
+    - reflexivity.
+  Qed.
+
+  Lemma eff_hash_autohash : forall f s, public_form f -> eff_multiline f s = false ->
+    eff_hash f s <> 0%nat ->
+    slhc_loop pr_tbl gr_tbl f (length s) s 1 = Some (eff_hash f s).
+  Proof.
+    intros f s [Hh _] Hml Hne. unfold Quote.eff_hash in *. rewrite Hml in *.
+    destruct (f_autohash f); [|congruence].
+    unfold Quote.single_line_hash_count in *.
+    destruct (negb (existsb _ s)); [congruence|].
+    destruct (slhc_loop pr_tbl gr_tbl f (length s) s 1); congruence.
+  Qed.
+
+  Lemma quote_hash_shape : forall f s, eff_multiline f s = false -> eff_hash f s <> 0%nat ->
+    quote f s = hashes (eff_hash f s) ++ f_quote f :: s ++ f_quote f :: hashes (eff_hash f s).
+  Proof.
+    intros f s Hml Hne. unfold Quote.quote. rewrite Hml. unfold append_escaped.
+    destruct (Nat.eqb_spec (eff_hash f s) 0); [contradiction|]. cbn [negb andb app]. reflexivity.
+  Qed.
+
+  Theorem unquote_quote_hash : forall f s, public_form f -> is_bytes s ->
+    eff_multiline f s = false -> eff_hash f s <> 0%nat -> lead2 (f_quote f) s = false ->
+    unquote (quote f s) = Ok (expected f s).
+  Proof.
+    intros f s Hpub Hb Hml Hne Hlead.
+    rewrite (quote_hash_shape f s Hml Hne).
+    set (q := f_quote f) in *. set (hc := eff_hash f s) in *.
+    pose proof (public_quote f Hpub) as Hq. fold q in Hq.
+    assert (Hqh : q <> ch_hash) by (unfold ch_hash, ch_dq, ch_sq in *; lia).
+    pose proof (eff_hash_autohash f s Hpub Hml Hne) as Hsl. fold hc in Hsl.
+    assert (Hplain : plain q hc (q :: hashes hc) s).
+    { apply (slhc_plain pr_tbl gr_tbl f (q :: hashes hc) Hqh (length s) s 1 hc (le_n _) Hsl). }
+    assert (Hlook : look3 q (s ++ q :: hashes hc) = false) by (rewrite look3_lead2; assumption).
+    unfold Unquote.unquote. rewrite (parse_quotes_single q hc s Hq Hlook).
+    replace (skipn (1 + hc) (hashes hc ++ q :: s ++ q :: hashes hc)) with (s ++ q :: hashes hc).
+    2:{ replace (hashes hc ++ q :: s ++ q :: hashes hc) with ((hashes hc ++ [q]) ++ s ++ q :: hashes hc)
+          by (rewrite <- app_assoc; reflexivity).
+        replace (1 + hc)%nat with (length (hashes hc ++ [q])) by (rewrite app_length, hashes_length; cbn; lia).
+        now rewrite skipn_app_exact. }
+    set (Q := mkQ hc false q 1 []).
+    unfold qi_unquote.
+    destruct (s ++ q :: hashes hc) as [|x l] eqn:E; [destruct s; discriminate|].
+    rewrite <- E in *. clear E x l.
+    unfold Q at 1 2 3 4 5 6. cbn [q_multi negb andb q_numhash q_char].
+    assert (Hex : existsb (fun c => c =? ch_nl) (s ++ q :: hashes hc) = false).
+    { rewrite existsb_app. cbn [existsb].
+      replace (q =? ch_nl) with false by (unfold ch_nl, ch_dq, ch_sq in *; lia).
+      assert (H1 : existsb (fun c => c =? ch_nl) s = false).
+      { pose proof (plain_no_crnl _ _ _ _ Hplain) as Hn. clear - Hn.
+        induction Hn as [|x l [H1 _] _ IH]; [reflexivity|]. cbn [existsb]. rewrite IH.
+        destruct (N.eqb_spec x ch_nl); [contradiction|reflexivity]. }
+      assert (H2 : existsb (fun c => c =? ch_nl) (hashes hc) = false).
+      { clear. induction hc; [reflexivity|]. cbn. exact IHhc. }
+      rewrite H1, H2. reflexivity. }
+    rewrite Hex.
+    replace (Nat.eqb hc 0) with false by (symmetry; apply Nat.eqb_neq; exact Hne).
+    rewrite andb_false_r.
+    destruct (raw_loop wrap pr_tbl gr_tbl q hc [] (q :: hashes hc) s Hplain Hq
+                (S (length (s ++ q :: hashes hc))) [] false false (Nat.lt_succ_diag_r _))
+      as [fuel' [st' [we' [H1 [H2 H3]]]]].
+    destruct (H3 eq_refl eq_refl) as [-> ->].
+    fold Q in H2. rewrite H2. rewrite app_nil_r.
+    destruct fuel' as [|k]; [cbn in H1; lia|].
+    pose proof (final_step k Q (rev s) false 0) as FS.
+    cbn [Q q_char q_numchar q_numhash repeat app] in FS. fold Q in FS.
+    rewrite FS by (auto). rewrite rev_involutive.
+    unfold expected. destruct (f_exact f); [reflexivity|].
+    f_equal. symmetry. apply sanitize_valid. eapply plain_valid. exact Hplain.
+  Qed.
+
+  (* the class on which the tree under test does NOT round-trip *)
+  Theorem unquote_quote_hash_bad : forall f s, public_form f -> is_bytes s ->
+    eff_multiline f s = false -> eff_hash f s <> 0%nat -> lead2 (f_quote f) s = true ->
+    unquote (quote f s) = Err EMissingOpeningNewline.
+  Proof.
+    intros f s Hpub Hb Hml Hne Hlead.
+    rewrite (quote_hash_shape f s Hml Hne).
+    set (q := f_quote f) in *. set (hc := eff_hash f s) in *.
+    pose proof (public_quote f Hpub) as Hq. fold q in Hq.
+    assert (Hqh : q <> ch_hash) by (unfold ch_hash, ch_dq, ch_sq in *; lia).
+    pose proof (eff_hash_autohash f s Hpub Hml Hne) as Hsl. fold hc in Hsl.
+    assert (Hplain : plain q hc (q :: hashes hc) s).
+    { apply (slhc_plain pr_tbl gr_tbl f (q :: hashes hc) Hqh (length s) s 1 hc (le_n _) Hsl). }
+    pose proof (plain_no_crnl _ _ _ _ Hplain) as Hn.
+    unfold Unquote.unquote, parse_quotes. cbv zeta.
+    rewrite count_prefix_hashes by exact Hqh. rewrite skipn_hashes.
+    replace ((q =? ch_dq) || (q =? ch_sq)) with true by lia.
+    destruct s as [|a [|b r]]; try discriminate.
+    cbn [lead2] in Hlead.
+    apply andb_prop in Hlead. destruct Hlead as [Hab Hc]. apply andb_prop in Hab.
+    destruct Hab as [Ha Hb']. apply N.eqb_eq in Ha, Hb'. subst a b.
+    destruct r as [|c r].
+    - cbn [app pq_kind]. rewrite !N.eqb_refl.
+      destruct (N.eqb_spec q ch_hash); [contradiction|]. cbn [andb negb].
+      replace (q =? ch_nl) with false by (unfold ch_nl, ch_dq, ch_sq in *; lia).
+      replace (q =? ch_cr) with false by (unfold ch_cr, ch_dq, ch_sq in *; lia).
+      reflexivity.
+    - cbn [app pq_kind]. rewrite !N.eqb_refl. rewrite Hc. cbn [andb].
+      inversion Hn as [|? ? _ Hn2]; subst. inversion Hn2 as [|? ? _ Hn3]; subst.
+      inversion Hn3 as [|? ? [Hc1 Hc2] _]; subst.
+      destruct (N.eqb_spec c ch_nl); [contradiction|]. destruct (N.eqb_spec c ch_cr); [contradiction|].
+      reflexivity.
+  Qed.
+
+  (* ================= all public forms ================= *)
+  (* the exact class of (form, text) pairs on which Quote followed by Unquote fails *)
+  Definition autohash_bad (f : form) (s : str) : Prop :=
+    eff_multiline f s = false /\ eff_hash f s <> 0%nat /\ lead2 (f_quote f) s = true.
+
+  Theorem unquote_quote_when : forall f s, public_form f -> is_bytes s -> ~ autohash_bad f s ->
+    unquote (quote f s) = Ok (expected f s).
+  Proof.
+    intros f s Hpub Hb Hnb.
+    destruct (eff_multiline f s) eqn:Hml; [now apply unquote_quote_multi|].
+    destruct (Nat.eq_dec (eff_hash f s) 0) as [H0|H0]; [now apply unquote_quote_single|].
+    destruct (lead2 (f_quote f) s) eqn:Hl; [|now apply unquote_quote_hash].
+    exfalso. apply Hnb. unfold autohash_bad. auto.
+  Qed.
 End RoundTrip.
